@@ -28,11 +28,12 @@ func VerifC05Ext() {
 func VerifC05ExtArray() {
 	n1, n2 := vCase("n1"), vCase("n2")
 	h, v := vCase("h"), vCase("v")
+	ord := vCase("ord")
 	var l1, l2 []string
 	anyPair := false
 	var xs, ys, fs, hs, vs [4]int64
 	for i := int64(0); i < n1+n2; i++ {
-		hs[i], vs[i] = h+(i%2), v+(i%2)
+		hs[i], vs[i] = h+((i+ord)%2), v+((i+ord)%2)
 		xs[i], ys[i], fs[i] = vNondetInt64(vN("x", i)), vNondetInt64(vN("y", i)), vNondetInt64(vN("f", i))
 		vAssume(0 <= xs[i] && xs[i] < int64(1)<<uint(hs[i]) && 0 <= ys[i] && ys[i] < int64(1)<<uint(hs[i]))
 		vAssume(-(int64(1)<<uint(vs[i])) <= fs[i] && fs[i] < int64(1)<<uint(vs[i]))
@@ -83,10 +84,11 @@ func VerifC05Tree() {
 func VerifC05TreeArray() {
 	n1, n2 := vCase("n1"), vCase("n2")
 	z := vCase("z")
+	ord := vCase("ord") // 0: coarse element first, 1: fine element first within each list
 	var l1, l2 []string
 	var xs, ys, fs, zs [4]int64
 	for i := int64(0); i < n1+n2; i++ {
-		zs[i] = z + (i % 2)
+		zs[i] = z + ((i + ord) % 2)
 		xs[i], ys[i], fs[i] = vNondetInt64(vN("x", i)), vNondetInt64(vN("y", i)), vNondetInt64(vN("f", i))
 		vAssume(0 <= xs[i] && xs[i] < int64(1)<<uint(zs[i]) && 0 <= ys[i] && ys[i] < int64(1)<<uint(zs[i]))
 		vAssume(-(int64(1)<<uint(zs[i]-1)) <= fs[i] && fs[i] < int64(1)<<uint(zs[i]-1))
